@@ -40,10 +40,10 @@ Proof. vm_compute. reflexivity. Qed.
 
 (* --- downloads --- *)
 (* In the statements of every configured build: the modules are visited in the build order of the
-   build info (C19_order_topological: build deps first). A module at any position, with [pre]
-   visited before it, has for EACH of its sources either `build <source>: phony || <its own
+   build info (C19_order_topological: build deps first). A module at any position of it has for EACH of its sources either `build <source>: phony || <its own
    build-dep files>` or — having none and not downloading itself — `build <source>: phony <tag file>`
-   for the download directory, registered by a module of [pre], that contains its source directory. *)
+   for the download directory, of ANY downloading module of the build order (before or after it), that
+   contains its source directory. *)
 Theorem C19_download_order : forall H EV b le builder binary select disable cli_env info entries,
   configure_build H EV b le builder binary select disable cli_env = Ok (Built info entries) ->
   exists (in_order : list (module * env * option (list module))) merge_opts ms,
@@ -56,23 +56,26 @@ Theorem C19_download_order : forall H EV b le builder binary select disable cli_
             (forall ld, m_build_dep_files m = Some ld ->
                         In (show_stmt (phony_after srcpath None (Some (sort_paths ld)))) (map show_stmt entries)) /\
             (forall sx tf, m_build_dep_files m = None -> m_download m = None ->
-                           expand_eval EV flat PIgnore srcdir = Ok sx -> containing_path (dldirs_of pre) sx = Some tf ->
+                           expand_eval EV flat PIgnore srcdir = Ok sx -> containing_path (dldirs_all in_order) sx = Some tf ->
                            In (show_stmt (phony_after srcpath (Some [tf]) None)) (map show_stmt entries)).
 Proof. exact configured_build_download_order. Qed.
 Print Assumptions C19_download_order.
 
-(* the table of download directories: a step of the module loop adds the source directory and tag
-   file of a downloading module and nothing else; statements are only added *)
+(* the table of download directories is collected before the module loop from ALL modules of the build
+   order (fix: independent of the order of visiting); a step of the loop never changes it and only adds
+   statements; every downloading module of the order is in it *)
 Theorem C19_download_table : forall H EV rules merge_opts ms gdeps objdir bn an st m menv mdeps st',
   module_step H EV rules merge_opts ms gdeps objdir bn an st (m, menv, mdeps) = Ok st' ->
-  (exists t, ls_entries st' = ls_entries st ++ t) /\
-  ls_dldirs st' = match m_srcdir m, m_download m with
-                  | Some srcdir, Some d => ainsert srcdir (dl_tagfile d srcdir) (ls_dldirs st)
-                  | _, _ => ls_dldirs st end.
+  (exists t, ls_entries st' = ls_entries st ++ t) /\ ls_dldirs st' = ls_dldirs st.
 Proof.
   intros H EV rules merge_opts ms gdeps objdir bn an st m menv mdeps st' HS.
   destruct (module_step_download H EV _ _ _ _ _ _ _ _ _ _ _ _ HS) as (X & D & _). split; [exact X|exact D].
 Qed.
+Theorem C19_download_table_complete : forall (l : list (module * env * option (list module))) m menv mdeps srcdir d,
+  In (m, menv, mdeps) l -> m_srcdir m = Some srcdir -> m_download m = Some d ->
+  exists tf, alookup srcdir (dldirs_all l) = Some tf.
+Proof. exact dldirs_all_has. Qed.
+Print Assumptions C19_download_table_complete.
 Print Assumptions C19_download_table.
 
 (* a registered directory that contains the path is found, and what is found contains the path *)
